@@ -289,8 +289,21 @@ impl Prop for C10 {
                     cov.bump("terminal.tie_between_functions");
                 }
                 // final sample is the event point
+                // when a requested output time coincides with t* bitwise the handler keeps that
+                // sample as the event point (its state is the interpolant at the same time, equal
+                // to the event state up to rounding)
+                let te_tie = sc.t_eval.as_ref().map(|te| te.iter().any(|x| x.to_bits() == tstar.to_bits())).unwrap_or(false);
                 let last_ok = match (ts.t.last(), ts.y.last()) {
-                    (Some(tl), Some(yl)) => tl.to_bits() == tstar.to_bits() && cands.iter().any(|(j, i)| bits_eq(yl, &ns.y_events[*j][*i])),
+                    (Some(tl), Some(yl)) => {
+                        tl.to_bits() == tstar.to_bits()
+                            && (cands.iter().any(|(j, i)| {
+                                let ye = &ns.y_events[*j][*i];
+                                bits_eq(yl, ye) || (te_tie && max_abs_diff(yl, ye) <= 1e-9 * (1.0 + norm_inf(ye)))
+                            })
+                                // the event time coincides bitwise with a sample of the twin: that
+                                // sample already is the event point (states agree to rounding)
+                                || (0..ns.t.len()).any(|i| ns.t[i].to_bits() == tstar.to_bits() && bits_eq(yl, &ns.y[i])))
+                    }
                     _ => false,
                 };
                 if !last_ok {
